@@ -75,11 +75,11 @@ func accessorScenario(name, loc string, only []string, boost int) (scenario, boo
 			// panicking is not this property's matter
 			call := func(n int, s string) { _ = hx.Safely(func() { a.call(n, s) }) }
 			ops = append(ops,
-				// fresh keys are drawn from 4096 per prefix: a table that grows with every call (locales.RegisterLocale, whose
+				// fresh keys are drawn from 256 per prefix: a table that grows with every call (locales.RegisterLocale, whose
 				// readers sort the whole table) made the thorough run quadratic and hit the time limit ("deadlock")
-				func() string { k := fresh.Add(1); call(int(3+k%997), fmt.Sprintf("k%d", k%4096)); return "miss" },
+				func() string { k := fresh.Add(1); call(int(3+k%997), fmt.Sprintf("k%d", k%256)); return "miss" },
 				func() string { call(1, ":"); return "hit" },
-				func() string { k := fresh.Add(1); call(int(3+k%997), fmt.Sprintf("q%d-", k%4096)); return "miss" },
+				func() string { k := fresh.Add(1); call(int(3+k%997), fmt.Sprintf("q%d-", k%256)); return "miss" },
 				func() string { call(2, "-"); return "hit" })
 		}
 		return ops
